@@ -125,4 +125,30 @@ var checks = map[string]check{
 		Rule:   "GoSafe models (3-4 files) boosted with 2-5 annotation keys per node, 2-9-entry map constants and services throwing 2-5 exception types x 9 configuration classes (default, with_reflection, gen_type_meta, with_field_mask, fastgo, reserve_comments, template=slim, random go/fastgo option sets) x optional recording/patching plugin; k=4 (quick) / 12 (thorough) fresh processes under GOMAXPROCS 1/2/4/16 with -o directories of different name lengths, some dirty; the multiset (relative path, sha256) and the bytes a plugin receives must be identical; non-trivial = (node with >=2 annotation keys or map constant with >=2 entries) and >=2 generated files, distinct by files + args + plugin",
 		Assume: []string{"stdout/stderr are not compared", "plugin cases keep one -o string (the request embeds it)", "a two-entry Go map shows its minority order in roughly one process in eight, so a single nondeterministic map is caught by k=4 with probability about 0.4 per program; witnesses replay with k>=80"},
 	},
+	"C06": {
+		ID: "C06", Pkg: "c06", NeedBin: true, MaxPar: 8,
+		Jobs: []job{
+			{Run: "^TestValues$", Quick: 3, QShards: 8, Thor: 50, TShards: 14},
+		},
+		Rule:   "one rapid case = one generated program (constants and field defaults of every type shape in every spelling: literal, identifier, qualified identifier across includes, enum by name/number, int for double, 0/1/true/false, nested list/set/map literals, partial struct literals) under drawn representation options (enum_as_int_32, value_type_in_container, use_type_alias=false, naming styles, ignore_initialisms, nil_safe), built into a driver; every constant is compared with the model's evaluation of its initializer, every struct-like's NewX()/InitDefault()/getters/IsSet with its declared defaults; non-trivial = constant that is a container/struct literal or an identifier reference, or a default of an optional field; distinct by program and name",
+		Assume: []string{"untyped Go constants are compared numerically; nil and empty containers/binaries are one value; maps as entry sets", "IsSet is asserted only where the property states it (optional scalar holding its default: false; value different from default and zero: true)", "constants are matched by a style-independent key (names are unique program-wide); ambiguous matches are counted and skipped"},
+	},
+	"C10": {
+		ID: "C10", Pkg: "c10", NeedBin: true, MaxPar: 8,
+		Jobs: []job{
+			{Run: "^TestFast$", Quick: 3, QShards: 8, Thor: 50, TShards: 14},
+		},
+		Rule:   "one rapid case = one generated program under -g fastgo (+0-2 presentation options) built into a driver, then 10-20 (struct, value) pairs, each through the modes write (FastAppend/FastWrite/BLength vs reference decoder and standard Read), read (FastRead vs standard Read on standard and reference encodings, both field orders), unknown / retag / omit_required perturbations, and a sweep over every truncation point (<=512) and single-byte corruptions of type bytes (field, stop, element, map key/value); non-trivial = sweep case, or a value with >=1 optional-with-default field and >=1 container inside a container",
+		Assume: []string{"FastWrite/FastAppend bytes are compared with the reference by decoded value (byte identity only without multi-entry maps)", "the violation is fast != standard (status, offset, object) or a panic; cases where the standard codec itself fails are counted and left to C02", "inputs announcing more than 2^20 elements are skipped on the read path so the watchdog cannot make runs flaky"},
+	},
+	"C16": {
+		ID: "C16", Pkg: "c16", NeedBin: true, NeedTrim: true, MaxPar: 10,
+		Jobs: []job{
+			{Run: "^TestRepoCases$|^TestHandWritten$", Quick: 1, QShards: 1, Thor: 1, TShards: 1},
+			{Run: "^TestTrimAPI$", Quick: 700, QShards: 8, Thor: 20000, TShards: 14},
+			{Run: "^TestTrimBinary$", Quick: 40, QShards: 4, Thor: 1500, TShards: 14},
+		},
+		Rule:   "multi-file IDL models with services and many struct-likes x trimmer arguments (none; -m exact, anchored regexps, unqualified names; preserve on/off; @preserve comments; preserved-struct list) through trim.TrimAST in-process and the trimmer binary (-r -o); oracle = reachability closure computed from the model (soundness: everything reachable kept; exactness: nothing else; includes), dumped result passes the front end, idempotence, kept struct-likes keep their fields, compile sample; non-trivial = >=1 struct-like removed and >=1 struct-like outside the main file kept only through a typedef or a container element, distinct by files + arguments + entry point",
+		Assume: []string{"-m patterns are exact names or anchored regexps whose meaning is unambiguous; the trimmer's substring heuristics for unanchored patterns are not part of the property", "services of included files that are not a base of a kept service: nothing asserted without -m", "include survival is asserted only where the property is explicit (must stay if referenced or holding constants/enums/typedefs; must go if nothing kept names it and its subtree holds none of those)"},
+	},
 }
